@@ -35,6 +35,7 @@ impl ChunkDeserializer {
             current_payload_data,
             buffer,
             previous_headers,
+            partial_payloads,
         } = self;
 
         push_u64(out, *max_chunk_size as u64);
@@ -75,6 +76,14 @@ impl ChunkDeserializer {
         for key in keys {
             push_u32(out, *key);
             fingerprint_header(&previous_headers[key], out);
+        }
+
+        let mut keys: Vec<&u32> = partial_payloads.keys().collect();
+        keys.sort();
+        push_u32(out, keys.len() as u32);
+        for key in keys {
+            push_u32(out, *key);
+            push_bytes(out, &partial_payloads[key][..]);
         }
     }
 }
